@@ -11,7 +11,7 @@ import sqlite3
 import common
 from c04 import BASE, Clock, Tokens, from_us, install_clock, to_us
 
-GEN_DEPS = ("gen_uploadflow", "gen_commands", "gen_idmanager")
+GEN_DEPS = ("gen_uploadflow", "gen_commands", "gen_idmanager", "gen_system")  # gen_system pins _upload / _transmit_file (every route of a transmission)
 ASSUMPTIONS = [
     "the stream contract: a failing write/flush raises and nothing after it happens; process death = no further statement runs (sqlite autocommit statements already executed stay committed)",
     "the escapes written are those of GraphicsCommand.send (property C05); here they are a parameter",
@@ -79,6 +79,17 @@ def child_main(work, plan):
             im.putdata([(noise.randrange(256), noise.randrange(256), noise.randrange(256)) for x in range(w * h)])
             im.save(p)
         imgs[name] = p
+    # further routes of TupimageTerminal._upload: a JPEG on disk (not a supported format: converted, sent through a
+    # tty-graphics-protocol-* temporary file or inline), an in-memory PIL image (never has a file of its own)
+    pj = os.path.join(work, "photo.jpg")
+    if not os.path.exists(pj):
+        Image.open(imgs["small"]).save(pj, format="JPEG")
+    imgs["jpeg"] = pj
+    mem = Image.new("RGB", (6, 5))
+    mem.putdata([(noise.randrange(256), noise.randrange(256), noise.randrange(256)) for x in range(30)])
+    imgs["mem"] = mem
+    import tempfile
+    tempfile.tempdir = work          # temporary files of the file route land in the sandbox directory
     out = []
     tty_in = open("/dev/tty", "rb", buffering=0)
     for ci, case in enumerate(plan):
@@ -167,9 +178,11 @@ def child_main(work, plan):
 
 def plan_cases(ctx):
     rng = ctx.rng
-    shapes = [("file", "tiny", None), ("direct", "tiny", None), ("direct", "small", 300), ("direct", "big", 600), ("direct", "big", 300)]
+    shapes = [("file", "tiny", None), ("direct", "tiny", None), ("direct", "small", 300), ("direct", "big", 600), ("direct", "big", 300),
+              # the other routes of _upload: temporary file (in-memory image, converted JPEG), inline from memory
+              ("file", "mem", None), ("file", "jpeg", None), ("direct", "mem", 300), ("direct", "jpeg", 400)]
     if not ctx.quick():
-        shapes += [("direct", "big", 200), ("direct", "small", 160), ("file", "big", 300)]
+        shapes += [("direct", "big", 200), ("direct", "small", 160), ("file", "big", 300), ("file", "jpeg", 300), ("direct", "mem", 160)]
     plan = []
     for method, image, mcs in shapes:
         for previous in (False, True):
@@ -251,7 +264,10 @@ def run(ctx, model):
         if iout != outcome or mtable != itable or (obs["calls"] is not None and len(obs["calls"]) != int(performed)):
             ctx.corr_breaks.append({"what": "outcome / completed calls / upload table differ from Model.UploadFlow.upload", "case": label,
                                     "impl": [iout, None if obs["calls"] is None else len(obs["calls"]), itable], "model": [outcome, performed, mtable]})
-        if obs["calls"] is not None and obs["calls"] != ref[:len(obs["calls"])]:
+        # the name of a temporary file differs from run to run (same length): compare kinds and lengths there
+        tmp_route = case["method"] == "file" and case["image"] in ("mem", "jpeg")
+        shape = (lambda cs: [(k, None if d is None else len(d)) for k, d in cs]) if tmp_route else (lambda cs: list(cs))
+        if obs["calls"] is not None and shape(obs["calls"]) != shape(ref[:len(obs["calls"])]):
             ctx.corr_breaks.append({"what": "calls completed before the fault are not a prefix of the full transmission", "case": label})
         # ---- oracle: the property's sentences on the implementation's behaviour
         fault_hit = (j is not None) and wanted and j < len(ref)
@@ -261,7 +277,7 @@ def run(ctx, model):
                 vio = ("error-not-propagated", f"the injected I/O error at call {j} did not reach the caller (got {obs['exc']})")
             elif any(row[0] == obs["id"] and row[1] == "term-X" for row in obs["table_after"]) or not obs["needs_after"]:
                 vio = ("recorded-despite-failed-transmission", f"after a transmission that failed at call {j} of {len(ref)} the database still records the image as uploaded to the terminal (needs_uploading={obs['needs_after']})")
-            elif [c for c in obs["retry_calls"] if c[0] == "w"] != [c for c in ref if c[0] == "w"]:
+            elif shape([c for c in obs["retry_calls"] if c[0] == "w"]) != shape([c for c in ref if c[0] == "w"]):
                 vio = ("retry-not-in-full", "the next request did not transmit the image again in full")
         if vio is None and wanted and ref and (ref[-1][0] != "f" or any(a[0] == "w" and b[0] != "f" for a, b in zip(ref, ref[1:] + [("end",)]))):
             vio = ("recorded-before-last-flush", "a complete transmission does not flush after its last write (or after some write): the upload is recorded although the last bytes may still sit in a buffer")
